@@ -1,0 +1,109 @@
+// Copyright 2025 The Go Authors. All rights reserved.
+// Use of this source code is governed by a BSD-style
+// license that can be found in the LICENSE file.
+
+//go:build verif
+
+package httpguts
+
+// Contracts, spec functions and lemma harnesses for the deductive verifier in /verif (govc).
+// This file is compiled only with -tags verif; it adds no behaviour to the package.
+
+// ---------------------------------------------------------------------------
+// Header grammar (property C55). The character classes are written from RFC 9110,
+// not from the tables of httplex.go.
+
+// tchar: RFC 9110 section 5.6.2:
+// "!" / "#" / "$" / "%" / "&" / "'" / "*" / "+" / "-" / "." / "^" / "_" / "`" / "|" / "~" / DIGIT / ALPHA
+//
+//@ pure
+func tchar(c byte) bool {
+	return c == '!' || c == '#' || c == '$' || c == '%' || c == '&' || c == '\'' || c == '*' || c == '+' ||
+		c == '-' || c == '.' || c == '^' || c == '_' || c == '`' || c == '|' || c == '~' ||
+		('0' <= c && c <= '9') || ('a' <= c && c <= 'z') || ('A' <= c && c <= 'Z')
+}
+
+// fieldValueByte: not a control byte other than horizontal tab (CTL = %x00-1F / %x7F).
+//
+//@ pure
+func fieldValueByte(c byte) bool {
+	return (c >= 0x20 || c == '\t') && c != 0x7f
+}
+
+// ows: optional whitespace is SP / HTAB.
+//
+//@ pure
+func ows(c byte) bool { return c == ' ' || c == '\t' }
+
+// foldEq: ASCII case-insensitive equality of two bytes, false for non-ASCII.
+//
+//@ pure
+func foldEq(a, b byte) bool {
+	if a >= 0x80 {
+		return false
+	}
+	la, lb := a, b
+	if 'A' <= la && la <= 'Z' {
+		la += 'a' - 'A'
+	}
+	if 'A' <= lb && lb <= 'Z' {
+		lb += 'a' - 'A'
+	}
+	return la == lb
+}
+
+//@ func IsTokenRune(r) (ok)
+//@   ensures ok <==> 0 <= r && r < 128 && tchar(byte(r))
+//@
+//@ func ValidHeaderFieldName(v) (ok)
+//@   ensures ok <==> (len(v) > 0 && forall k int :: 0 <= k && k < len(v) ==> tchar(v[k]))
+//@   loop 1 invariant 0 <= i && i <= len(v) && len(v) > 0
+//@   loop 1 invariant forall j int :: 0 <= j && j < i ==> tchar(v[j])
+//@
+//@ func ValidHeaderFieldValue(v) (ok)
+//@   ensures ok <==> (forall k int :: 0 <= k && k < len(v) ==> fieldValueByte(v[k]))
+//@   loop 1 invariant 0 <= i && i <= len(v)
+//@   loop 1 invariant forall j int :: 0 <= j && j < i ==> fieldValueByte(v[j])
+//@
+//@ func isOWS(b) (r)
+//@   pure
+//@ func isLWS(b) (r)
+//@   pure
+//@ func isCTL(b) (r)
+//@   pure
+//@ func lowerASCII(b) (r)
+//@   pure
+//@
+//@ func trimOWS(x) (r)
+//@   ensures samebase(r, x) && 0 <= suboff(r, x) && suboff(r, x) + len(r) <= len(x)
+//@   ensures forall k int :: 0 <= k && k < suboff(r, x) ==> ows(x[k])
+//@   ensures forall k int :: suboff(r, x) + len(r) <= k && k < len(x) ==> ows(x[k])
+//@   ensures len(r) > 0 ==> !ows(r[0]) && !ows(r[len(r)-1])
+//@   loop 1 invariant samebase(x, old(x)) && 0 <= suboff(x, old(x)) && suboff(x, old(x)) + len(x) == len(old(x))
+//@   loop 1 invariant forall k int :: 0 <= k && k < suboff(x, old(x)) ==> ows(old(x)[k])
+//@   loop 2 invariant samebase(x, old(x)) && 0 <= suboff(x, old(x)) && suboff(x, old(x)) + len(x) <= len(old(x))
+//@   loop 2 invariant forall k int :: 0 <= k && k < suboff(x, old(x)) ==> ows(old(x)[k])
+//@   loop 2 invariant forall k int :: suboff(x, old(x)) + len(x) <= k && k < len(old(x)) ==> ows(old(x)[k])
+//@   loop 2 invariant len(x) > 0 ==> !ows(x[0])
+//@
+//@ func tokenEqual(t1, t2) (ok)
+//@   ensures ok <==> (len(t1) == len(t2) && forall k int :: 0 <= k && k < len(t1) ==> foldEq(t1[k], t2[k]))
+//@   loop 1 invariant len(t1) == len(t2) && 0 <= rangepos && rangepos <= len(t1)
+//@   loop 1 invariant forall j int :: 0 <= j && j < rangepos ==> foldEq(t1[j], t2[j])
+
+// lemmaTokenTable: the 256-entry table is exactly the tchar set.
+//
+//@ lemma
+//@ ensures ok
+func lemmaTokenTable(c byte) (ok bool) {
+	return isTokenTable[c] == tchar(c)
+}
+
+// lemmaFieldValueRejects: CR, LF and NUL are always rejected, wherever they occur.
+//
+//@ lemma
+//@ requires 0 <= i && i < len(s) && (s[i] == '\r' || s[i] == '\n' || s[i] == 0)
+//@ ensures ok
+func lemmaFieldValueRejects(s string, i int) (ok bool) {
+	return !ValidHeaderFieldValue(s)
+}
